@@ -17,6 +17,7 @@ Classification per harness:
   any other failing check (panic, overflow, OOB inside real code) -> VIOLATION if the harness says no_panic, else UNDECIDED
 """
 import concurrent.futures
+import fcntl
 import resource
 import importlib.util
 import os
@@ -205,12 +206,28 @@ def run_unit(unit_dir, repo, work, tier='quick', prop=None):
         return res
     kargs = list(getattr(mod, 'KANI_ARGS', []))
     log_dir = os.path.join(VERIF, 'replays', 'kani-logs', name)
-    # first harness alone (it builds the crate), the rest in parallel
-    results = [run_harness(crate, hs[0], kargs, log_dir)]
-    if len(hs) > 1:
-        with concurrent.futures.ThreadPoolExecutor(max_workers=int(os.environ.get('VERIF_KANI_JOBS', '4'))) as ex:
-            results += list(ex.map(lambda h: run_harness(crate, h, kargs, log_dir), hs[1:]))
-    res['harnesses'] = results
+    # two checks sharing this unit (C05, C13) may run at the same time: the shared target directory is used by one
+    # cargo-kani session at a time
+    os.makedirs(os.path.dirname(CACHE), exist_ok=True)
+    lock = open(CACHE + '.lock', 'w')
+    fcntl.flock(lock, fcntl.LOCK_EX)
+    try:
+        # first harness alone (it builds the crate), the rest in parallel
+        results = [run_harness(crate, hs[0], kargs, log_dir)]
+        if results[0]['status'] == 'undecided' and results[0]['reason'].startswith('no check results'):
+            results = [run_harness(crate, hs[0], kargs, log_dir)]   # one retry of a build that produced no result
+        if len(hs) > 1:
+            with concurrent.futures.ThreadPoolExecutor(max_workers=int(os.environ.get('VERIF_KANI_JOBS', '4'))) as ex:
+                results += list(ex.map(lambda h: run_harness(crate, h, kargs, log_dir), hs[1:]))
+        res['harnesses'] = results
+        viol0 = [r for r in results if r['status'] == 'violation']
+        tests = {}
+        for r in viol0:
+            h = next(h for h in hs if h['name'] == r['harness'])
+            tests[r['harness']] = playback(crate, h, kargs, log_dir)
+    finally:
+        fcntl.flock(lock, fcntl.LOCK_UN)
+        lock.close()
     res['bounds'] = '; '.join(sorted(set(f"{r['harness']}: {r['bounds']}" for r in results if r['bounds'])))
     res['cmd'] = results[0]['cmd'].replace(hs[0]['name'], '<harness>')
     res['smt_time_s'] = sum(r['cbmc_s'] or 0 for r in results)
@@ -226,8 +243,7 @@ def run_unit(unit_dir, repo, work, tier='quick', prop=None):
     if viol:
         res['status'] = 'violation'
         for r in viol:
-            h = next(h for h in hs if h['name'] == r['harness'])
-            test = playback(crate, h, kargs, log_dir)
+            test = tests.get(r['harness'])
             for f in r['failed']:
                 f['in_real_code'] = ', '.join(getattr(mod, 'FUNCTIONS', []))
                 f['rendered'] = f"harness {r['harness']} ({r['form']}, {r['bounds']}): obligation {f['obligation']} FAILED\n"
